@@ -24,6 +24,7 @@ type C06Case struct {
 	Fn       bool  `json:"fn"`             // forbidden function instead of filter
 	MainWrap int   `json:"mainwrap"`       // how the unsandboxed template holds the include
 	IncOpts  int   `json:"incopts"`        // options on the sandboxed include itself: bit0 with, bit1 only
+	Order    int   `json:"order,omitempty"` // 0: with, only, sandboxed; 1-6: `ignore missing` added and the options written in another order
 	Custom   bool  `json:"custom"`         // harness policy type instead of DefaultSecurityPolicy
 	Deny     bool  `json:"deny,omitempty"` // the refused names are listed in the policy with the value false instead of being absent
 	// second arm (checkC06Named): an explicit occurrence and the names the policy refuses,
@@ -180,17 +181,32 @@ func c06Build(c C06Case, sandboxed bool) (map[string]string, string) {
 	}
 	tm["inner"] = body
 	inc := "{% include 'inner'"
-	if c.IncOpts&1 != 0 {
-		inc += " with " + c06Vars
+	var w, o, sb string
+	if c.IncOpts&3 != 0 {
+		w = " with " + c06Vars
 	}
 	if c.IncOpts&2 != 0 {
-		if c.IncOpts&1 == 0 {
-			inc += " with " + c06Vars
-		}
-		inc += " only"
+		o = " only"
 	}
 	if sandboxed {
-		inc += " sandboxed"
+		sb = " sandboxed"
+	}
+	const im = " ignore missing"
+	switch c.Order % 7 {
+	case 0:
+		inc += w + o + sb
+	case 1:
+		inc += im + w + o + sb
+	case 2:
+		inc += w + o + sb + im
+	case 3:
+		inc += sb + im + w + o
+	case 4:
+		inc += sb + w + o + im
+	case 5:
+		inc += w + im + o + sb
+	case 6:
+		inc += im + sb + w + o
 	}
 	inc += " %}"
 	var main string
@@ -648,13 +664,13 @@ func TestC06Flip(t *testing.T) {
 	})
 }
 
-const c06Rule = "a forbidden spy filter or function written in one of 30 (filter) / 30 (function) syntactic positions (also as the subject of default and `is defined`), reached from `include 'inner' sandboxed` (optionally with/only, placed at top level, in a loop, condition, block or macro of the unsandboxed template) through a chain of 0-3 carriers out of 16 (top-level code of an imported library (import as / from import), include, include only, include with, extends with override, extends with the occurrence in the parent, parent(), import-as + call, from-import + call, local macro, apply, for, if, block, set) under DefaultSecurityPolicy or a harness policy type, the refused name absent from the policy's maps or (1 case in 3) listed there with the value false; non-trivial = the occurrence is live (the spy runs when the include is not sandboxed) and it is not the head of a print tag directly in the sandboxed template; distinct by case parameters"
+const c06Rule = "a forbidden spy filter or function written in one of 30 (filter) / 30 (function) syntactic positions (also as the subject of default and `is defined`), reached from `include 'inner' sandboxed` (optionally with/only/ignore missing in 7 orders, placed at top level, in a loop, condition, block or macro of the unsandboxed template) through a chain of 0-3 carriers out of 16 (top-level code of an imported library (import as / from import), include, include only, include with, extends with override, extends with the occurrence in the parent, parent(), import-as + call, from-import + call, local macro, apply, for, if, block, set) under DefaultSecurityPolicy or a harness policy type, the refused name absent from the policy's maps or (1 case in 3) listed there with the value false; non-trivial = the occurrence is live (the spy runs when the include is not sandboxed) and it is not the head of a print tag directly in the sandboxed template; distinct by case parameters"
 
 func TestC06Sandbox(t *testing.T) {
 	r := NewRec(t, "C06", c06Rule)
 	defer r.Flush()
 	rapid.Check(t, func(rt *rapid.T) {
-		c := C06Case{Fn: rapid.Bool().Draw(rt, "fn"), MainWrap: rapid.IntRange(0, 4).Draw(rt, "mainwrap"), IncOpts: rapid.IntRange(0, 3).Draw(rt, "incopts"), Custom: rapid.IntRange(0, 3).Draw(rt, "custom") == 0, Deny: rapid.IntRange(0, 2).Draw(rt, "deny") == 0}
+		c := C06Case{Fn: rapid.Bool().Draw(rt, "fn"), MainWrap: rapid.IntRange(0, 4).Draw(rt, "mainwrap"), IncOpts: rapid.IntRange(0, 3).Draw(rt, "incopts"), Order: rapid.SampledFrom([]int{0, 0, 1, 2, 3, 4, 5, 6}).Draw(rt, "order"), Custom: rapid.IntRange(0, 3).Draw(rt, "custom") == 0, Deny: rapid.IntRange(0, 2).Draw(rt, "deny") == 0}
 		if c.Fn {
 			c.Pos = rapid.IntRange(0, len(c06FuncPos)-1).Draw(rt, "pos")
 		} else {
@@ -695,7 +711,7 @@ func TestC06Sandbox(t *testing.T) {
 
 // TestC06Matrix: every position x every single carrier (and no carrier), filter and function.
 func TestC06Matrix(t *testing.T) {
-	r := NewRec(t, "C06", "exhaustive: every occurrence position x {no carrier, each of the 14 carriers} x {filter, function} x {plain, with+only on the sandboxed include}, plus every ordered pair of carriers for six representative positions; non-trivial = the occurrence is live")
+	r := NewRec(t, "C06", "exhaustive: every occurrence position x {no carrier, each of the 14 carriers} x {filter, function} x {plain, with+only on the sandboxed include; for the carrier-less arrangement also `ignore missing` added with the options in 6 orders}, plus every ordered pair of carriers for six representative positions; non-trivial = the occurrence is live")
 	defer r.Flush()
 	r.SetExhaustive()
 	run := func(c C06Case) {
@@ -724,6 +740,9 @@ func TestC06Matrix(t *testing.T) {
 		for pos := 0; pos < npos; pos++ {
 			for _, opts := range []int{0, 3} {
 				run(C06Case{Pos: pos, Fn: fn, IncOpts: opts})
+				for order := 1; order <= 6; order++ {
+					run(C06Case{Pos: pos, Fn: fn, IncOpts: opts, Order: order})
+				}
 				run(C06Case{Pos: pos, Fn: fn, IncOpts: opts, Deny: true})
 				run(C06Case{Pos: pos, Fn: fn, IncOpts: opts, Deny: true, Custom: true})
 				for k := range c06CarrierNames {
